@@ -85,6 +85,14 @@ func (s *Stack) Pop() *Scanner {
 	return e
 }
 
+// Bottom returns the scanner which was pushed first, nil for an empty stack.
+func (s *Stack) Bottom() *Scanner {
+	if len(s.stack) == 0 {
+		return nil
+	}
+	return s.stack[0].scanner
+}
+
 // Empty returns true is stack is empty.
 func (s *Stack) Empty() bool {
 	return len(s.stack) == 0
